@@ -246,6 +246,18 @@ func (c *vCase) vLeftover() {
 	if d := os.Getenv("VERIF_DUMP"); d != "" {
 		vDumpAll(d)
 	}
+	// a mocknet stream whose connection was torn down while it was being opened keeps its transport goroutine for ever;
+	// that is the in-memory network's business (no library frame, no harness frame): tolerated, counted
+	var rest []string
+	for _, g := range gs {
+		if strings.Contains(g, "p2p/net/mock.(*stream).transport") && !strings.Contains(g, "go-libp2p-pubsub") {
+			c.Count("mocknet_stream_goroutines_left", 1)
+			c.leftover = true // the bubble will complain about them; that complaint is expected
+			continue
+		}
+		rest = append(rest, g)
+	}
+	gs = rest
 	if len(gs) == 0 {
 		return
 	}
